@@ -145,7 +145,7 @@ func recvConfigs(thorough bool) []config {
 	if thorough {
 		depth = 6
 		lens = []int64{0, 1, 5, 16384}
-		pads = []int{-1, 0, 1, 255}
+		pads = []int{-1, 0, 255}
 	}
 	type pc struct {
 		per  int32
@@ -370,6 +370,50 @@ func explore(t *testing.T, rep *ev.Report, cfg space, deadline time.Time, founds
 		frontier = next
 		st.depthDone = d + 1
 	}
+}
+
+// assign deals the configurations to the shards: longest-processing-time-first on static weights (measured
+// relative costs), so that the heavy receive-side configurations do not pile up on one shard. Deterministic.
+func assign(cfgs []space, of int) []int {
+	weight := func(n string) int {
+		switch {
+		case strings.HasPrefix(n, "recv/stream1/"):
+			return 30
+		case strings.HasPrefix(n, "recv/stream10/"):
+			return 100
+		case strings.HasPrefix(n, "recv/"):
+			return 240
+		case n == "send/large", n == "transport/send/large":
+			return 30
+		case strings.HasPrefix(n, "send/"):
+			return 130
+		case strings.HasPrefix(n, "transport/recv"):
+			return 80
+		case strings.HasPrefix(n, "transport/send"):
+			return 40
+		case strings.HasPrefix(n, "cycle/"):
+			return 60
+		}
+		return 20
+	}
+	idx := make([]int, len(cfgs))
+	for i := range idx {
+		idx[i] = i
+	}
+	sort.SliceStable(idx, func(a, b int) bool { return weight(cfgs[idx[a]].Name) > weight(cfgs[idx[b]].Name) })
+	load := make([]int, of)
+	owner := make([]int, len(cfgs))
+	for _, i := range idx {
+		best := 0
+		for s := 1; s < of; s++ {
+			if load[s] < load[best] {
+				best = s
+			}
+		}
+		owner[i] = best
+		load[best] += weight(cfgs[i].Name)
+	}
+	return owner
 }
 
 func terminalKind(r result) string {
@@ -622,8 +666,9 @@ func TestCheck(t *testing.T) {
 	// Work units: one per configuration (BFS), dealt round-robin to the shards. The cycle configurations are
 	// explored by EVERY shard (only the owner counts the BFS in the evidence) because each shard amplifies its
 	// own slice of the cycles found.
+	owners := assign(cfgs, of)
 	for i, cfg := range cfgs {
-		owner := i%of == shard
+		owner := owners[i] == shard
 		if !owner && !cfg.Cycles {
 			continue
 		}
@@ -758,6 +803,9 @@ func replayFile(t *testing.T, rep *ev.Report, path string) {
 		r = amplify(t, sp.cfg, f.Replay.Seq, f.Replay.Amplify, true).result
 	} else {
 		r = sp.run(t, f.Replay.Seq, true)
+	}
+	if r.harness != "" {
+		rep.HarnessError("replay: %s", r.harness)
 	}
 	rep.Add("states", 1)
 	rep.Add("transitions", int64(len(f.Replay.Seq)))
